@@ -213,6 +213,8 @@ def decode_value(x):
         return float("nan")
     if x == "inf":
         return float("inf")
+    if x == "ninf":
+        return float("-inf")
     if x == "npnan":
         return np.float64("nan")
     if x[0] == "i":
